@@ -110,6 +110,9 @@ pub struct Cfg {
     /// the terminal is too short for all bars: a live bar may be missing from the screen (general
     /// oracle otherwise: every row is a printed line or a member's rendering, order, no duplicates)
     pub may_omit: bool,
+    /// MultiProgress::set_move_cursor(true): redraws move the cursor up instead of clearing the rows first
+    /// (the set of bars and the height of their renderings must then stay the same)
+    pub move_cursor: bool,
 }
 
 impl Cfg {
@@ -140,6 +143,7 @@ impl Cfg {
             only: None,
             odd_logs: false,
             may_omit: false,
+            move_cursor: false,
         }
     }
 
@@ -346,6 +350,9 @@ impl Hist for Cfg {
             Some(hz) => ProgressDrawTarget::term_like_with_hz(spy.boxed(), hz),
         };
         let mut wd = World { mp: MultiProgress::with_draw_target(target), spy: spy.clone(), bars: vec![] };
+        if self.move_cursor {
+            wd.mp.set_move_cursor(true);
+        }
         let mut rf = Ref { logs: vec![], order: vec![], bars: vec![], bottom_ever: false, bottom_now: false, cleared: false };
         let all: Vec<&Op> = self.root.iter().chain(hist.iter()).collect();
         let shown_hist: Vec<String> = hist.iter().map(|o| format!("{:?}", o)).collect();
